@@ -104,7 +104,8 @@ Definition arith_wraps (sub : bool) (p n stride : Z) : bool :=
 
 (* field / element address formed through a pointer (operator->, operator*,
    then & of a field or element): plain addition, no check at all *)
-Definition field_addr (p off : Z) : Z := p + off.
+(* (native pointer arithmetic: mod 2^64; the wrap only matters once a pointer has already left every sandbox - D5) *)
+Definition field_addr (p off : Z) : Z := w64 (p + off).
 
 (* ---------- array indexing (C17) ---------- *)
 (* raw_rhs >= 0 && make_unsigned(raw_rhs) < extent ; element address in the
@@ -185,7 +186,7 @@ Definition step_pop (idxchk : bool) (l : list region) (s : region) (p : Z) (o : 
   | OpArith sub n stride => ptr_arith l sub p n stride
   | OpIndex n stride => ptr_index_gen idxchk l p n stride
   | OpField off => Ok (field_addr p off)
-  | OpElem i len elsz => arr_index IULong i len p elsz
+  | OpElem i len elsz => r <- arr_index IULong i len p elsz ;; Ok (w64 r)
   | OpCast => Ok p
   | OpLoadPtr rep => if p =? 0 then Fault else load_ptr_cell l p rep
   | OpFromGuest rep => Ok (unsandbox s rep)
